@@ -65,6 +65,30 @@ Theorem C16_library_frames_are_transparent :
 Proof. exact fresh_resolve_lib. Qed.
 Print Assumptions C16_library_frames_are_transparent.
 
+(* D27 repair: a frame that runs the library's own code is skipped by all three finders WHATEVER it holds - also the
+   predicate-valued loop variables of is_tuple_of_p / is_dict_of_p (p, key_p, value_p), which the theorem above does not
+   cover (lib_frame asks for `self` and data only).  A real frame chain is a list of (runs library code?, f_locals);
+   find_*_f are the finders of the code: the finders of the theorems above on the chain without its library frames. *)
+Theorem C16_library_frames_are_skipped_whatever_they_hold :
+  forall (fr : frame) (fs : fstack) (node : pred) (ref : string),
+    find_this_f ((true, fr) :: fs) node = find_this_f fs node /\
+    find_root_f ((true, fr) :: fs) node = find_root_f fs node /\
+    find_by_ref_f ((true, fr) :: fs) ref = find_by_ref_f fs ref.
+Proof. exact library_frames_are_skipped. Qed.
+Print Assumptions C16_library_frames_are_skipped_whatever_they_hold.
+Example C16_tuple_of_loop_variable_no_longer_captures :
+  let P := recp is_int (PThis 1) in
+  let user := [("P", OPred P)] in
+  find_this (tuple_of_genexpr P :: [user]) (PThis 1) = Some (PAnd is_list (PAll P)) /\
+  find_this_f [(true, tuple_of_genexpr P); (false, user)] (PThis 1) = Some P /\
+  find_root_f [(true, tuple_of_genexpr P); (false, user)] (PThis 1) = Some P /\
+  find_by_ref ([(".0", OData true); ("p", OPred (PAnd is_list (PAll (recp is_int (PLazy "p"))))); ("v", OData true)]
+               :: [[("p", OPred (recp is_int (PLazy "p")))]]) "p" = Some (OPred (PAnd is_list (PAll (recp is_int (PLazy "p"))))) /\
+  find_by_ref_f [(true, [(".0", OData true); ("p", OPred (PAnd is_list (PAll (recp is_int (PLazy "p"))))); ("v", OData true)]);
+                 (false, [("p", OPred (recp is_int (PLazy "p")))])] "p" = Some (OPred (recp is_int (PLazy "p"))).
+Proof. exact tuple_of_loop_variable_no_longer_captures. Qed.
+Print Assumptions C16_tuple_of_loop_variable_no_longer_captures.
+
 (* D10 repair: when no frame of the caller's stack binds a predicate under the name, lazy_p(name) finds what the module
    that wrote lazy_p(name) binds to it (home = that module's globals, consulted with dict.get) *)
 Theorem C16_lazy_falls_back_to_defining_namespace :
